@@ -630,7 +630,7 @@ def _execute(record: dict, rng: Optional[random.Random]) -> Outcome:
                 task_transport=(sink == "s3-cluster"),
                 recompute=dcfg["recompute"],
                 pure=_pure_task,
-                stall=dcfg["stall"],
+                stall=dcfg["stall"] * (0.2 if (dcfg.get("trace") or "sinks") != "sinks" else 1.0),  # per step: line-level runs have many more steps
                 kernel=kernel,
                 log_tasks=True,
                 real=dcfg.get("real"),
